@@ -35,6 +35,8 @@ Several node pools (harnesses `config` and `pools`):
   mp <goneMode>      start of a multi-pool history over the converted pools (goneMode 1: the evictor's filter
                      rejects a pod once it has been evicted successfully in this Balance call)
   nlab <id> <n> (<key> <value>)*       labels of EVERY node of the cluster (with or without usable metric)
+  fnodes <np> <processed id>*np (-1 | <n> (<key> <value>)*)      filterNodes on the nodes given by the `nlab` lines
+                     before it, for a nil (-1) or matchLabels selector; output `fn <node ids>` (exhaustive stream)
   porder <seg> <node> <pod>*           observed processing order inside the seg-th pool that had nodes
   mgo          one Balance call over all pools; output: per pool with nodes `seg <k> <node ids>` and its
                `evict` lines, then the `det` lines and `end`
@@ -224,7 +226,7 @@ structure PoolRun where
   evs     : List Ev
   st      : St
   exit    : Nat
-  sources : List Nat      -- processedNodes.Insert: the nodes classified `high` / `prodHigh`, when the pool got to the end
+  sources : List Nat      -- processedNodes.Insert: the nodes classified `high` / `prodHigh`, once the pool has marked them
 
 /-- processOneNodePool on the nodes / pods / metrics / orders held in `a`. -/
 def runPool (a : Acc) (dc : DrvCfg) : PoolRun :=
@@ -267,7 +269,7 @@ def runPool (a : Acc) (dc : DrvCfg) : PoolRun :=
     ++ ns.map (fun n => s!"thr {n.id} {showInts (n.low ++ n.high ++ n.plow ++ n.phigh)}")
     ++ ns.map (fun n => s!"cls {n.id} {(classify n).code}")
   ⟨lines, ro.evs, st, ro.exit,
-   if ro.exit = 0 then (ofClass .high ns).map (·.id) ++ (ofClass .prodHigh ns).map (·.id) else []⟩
+   if ro.exit = 1 || ro.exit = 2 then [] else (ofClass .high ns).map (·.id) ++ (ofClass .prodHigh ns).map (·.id)⟩
 
 def evLine (e : Ev) : String := s!"evict {e.node} {e.pod} {b2i e.ok}"
 
@@ -481,6 +483,19 @@ def step (a : Acc) (line : String) : Acc :=
     | some (id :: xs) =>
       match counted? xs with
       | some ps => if id < 0 then fail else { a with labels := (id.toNat, ps.map fun kv => (kv.1, kv.2.toNat)) :: a.labels }
+      | none => fail
+    | _ => fail
+  | "fnodes" :: rest =>
+    match ints? rest with
+    | some (np :: xs) =>
+      if np < 0 || xs.length < np.toNat + 1 then fail else
+      let proc := (xs.take np.toNat).map Int.toNat
+      let selToks := xs.drop np.toNat
+      let sel : Option (Option Labels) :=
+        if selToks = [-1] then some none
+        else (counted? selToks).map fun ps => some (ps.map fun kv => (kv.1, kv.2.toNat))
+      match sel with
+      | some sl => { a with labels := [], out := a.out.push s!"fn {showNats (filterNodes sl a.labels.reverse proc)}" }
       | none => fail
     | _ => fail
   | "porder" :: rest =>
